@@ -51,6 +51,22 @@ var deepCases = []deepCase{
 	{"string-of-deep-array", "action", "ecmascript", deepArr + ` return {s: String(o).length};`},
 }
 
+// values with shared substructure: 64 levels deep, a few hundred bytes in the
+// interpreter, 2^64 values once written out.  Whatever walks them as a tree does not come
+// back; the script itself finishes in microseconds.
+var dagObj = `var o = {}; for (var i = 0; i < 64; i++) { o = {l: o, r: o}; }`
+var dagArr = `var o = []; for (var i = 0; i < 64; i++) { o = [o, o]; }`
+
+func init() {
+	deepCases = append(deepCases,
+		deepCase{"dag-return-object", "action", "ecmascript", dagObj + ` return {deep: o};`},
+		deepCase{"dag-return-array", "action", "ecmascript", dagArr + ` return {deep: o};`},
+		deepCase{"dag-emit-object", "action", "ecmascript", dagObj + ` _.out(o); return _.bindings;`},
+		deepCase{"dag-guard-returns-object", "guard", "ecmascript", dagObj + ` return {deep: o};`},
+		deepCase{"dag-crew-machine-returns-object", "crew", "ecmascript", dagObj + ` var bs = _.bindings; bs.deep = o; return bs;`},
+		deepCase{"dag-crew-machine-emits-array", "crew", "ecmascript", dagArr + ` _.out({to: "nobody", deep: o}); return _.bindings;`})
+}
+
 // boundary cases: nesting around the depth a JSON decoder accepts (10000).  Whatever is
 // accepted must survive being written and read back inside the envelopes hosts use.
 func init() {
@@ -227,7 +243,11 @@ func deepPart(cfg fw.Config, rec *fw.Rec) {
 			sem <- struct{}{}
 			defer func() { <-sem }()
 			rec.LogCase(0, map[string]interface{}{"deep_case": dc.Name})
-			ctx, cancel := context.WithTimeout(context.Background(), 15*time.Minute)
+			limit := 15 * time.Minute
+			if strings.HasPrefix(dc.Name, "dag-") {
+				limit = 3 * time.Minute // the script takes microseconds, the refusal under a second
+			}
+			ctx, cancel := context.WithTimeout(context.Background(), limit)
 			defer cancel()
 			cmd := exec.CommandContext(ctx, exe)
 			cmd.Env = append(os.Environ(), "VERIF_DEEPCASE="+dc.Name)
@@ -236,7 +256,7 @@ func deepPart(cfg fw.Config, rec *fw.Rec) {
 			text := string(outb)
 			replay := map[string]interface{}{"deep_case": dc.Name, "levels": deepLevels, "script": dc.Body, "position": dc.Position, "interpreter": dc.Interp}
 			if ctx.Err() != nil {
-				rec.Violation("C07:deep:hang:"+dc.Name, "processing did not return within 15 minutes", replay)
+				rec.Violation("C07:deep:hang:"+dc.Name, fmt.Sprintf("processing did not return within %v", limit), replay)
 				return
 			}
 			idx := strings.LastIndex(text, "OUTCOME ")
